@@ -198,7 +198,7 @@ def add_engine(U):
     U.fn(F_MGR, "impl EngineManager :: fn set_state", wrap="impl EngineManager", ret="r", header_subs=SH, subs=MS, props=["C08", "C03"],
          rules_=("R-log", "R-errmsg", "R-underscore", "R-ctorfn"),
          spec="    ensures r.is_ok() ==> self.interface.accepted(*state),        // Ok only if the execution layer accepted exactly this state\n")
-    U.fn(F_MGR, "impl EngineManager :: fn queue_block", wrap="impl EngineManager", ret="r",
+    U.fn(F_MGR, "impl EngineManager :: fn queue_block", wrap="impl EngineManager", ret="r", props=U.props + ["C19"],
          header_subs=[("ctx::Ctx", "Ctx"), ("ctx::Result<()>", "Result<(), CtxError>")],
          subs=[("let t = metrics::$X;", "", 1), ("t.observe();", "", 1),
                ("anyhow_error()\n                    .into()", "anyhow_into_ctx(anyhow_error())", None),
@@ -253,7 +253,7 @@ def build(repo):
          header_subs=[("validator::Block", "Block")],
          subs=[("use validator::Block as B;", ""), ("B::", "Block::", None)],
          spec="    ensures r == b.as_last(),\n")
-    U.fn(F_BS, "impl BlockStoreState :: fn contains", wrap="impl BlockStoreState", ret="r", header_subs=NB, spec="""
+    U.fn(F_BS, "impl BlockStoreState :: fn contains", wrap="impl BlockStoreState", ret="r", header_subs=NB, props=U.props + ["C19"], spec="""
     ensures r == (self.last.is_some() && self.first.0 <= number.0 <= self.last.unwrap().num().0),
 """)
     U.fn(F_BS, "impl BlockStoreState :: fn head", wrap="impl BlockStoreState", ret="r", header_subs=NB, subs=NB,
